@@ -993,6 +993,28 @@ func runIdx(c Case) result {
 	default:
 		panic("idx kind")
 	}
+	if kind == 4 {
+		// session ids are chosen by the code (uuid): a session created after a terminated one is a NEW entity.
+		// Give every re-creation of a terminated harness id a fresh number, so that a stale index entry left
+		// behind by a known defect keeps pointing at the dead entity in the Model as it does in the code
+		// (re-using the number made the Model's stale entry point at the new, live session: a Model/code
+		// disagreement that only showed after the known finding's step).
+		ops := make([]Op, len(c.Ops))
+		copy(ops, c.Ops)
+		gen, dead := map[int]int{}, map[int]bool{}
+		for i := range ops {
+			base := ops[i].N
+			if ops[i].K == "c" && dead[base] {
+				gen[base]++
+				dead[base] = false
+			}
+			if ops[i].K == "d" {
+				dead[base] = true
+			}
+			ops[i].N = base + 100*gen[base]
+		}
+		c.Ops = ops
+	}
 	ids := idxIDs(c)
 	probe := make([]map[int]bool, st.nidx())
 	for i := range probe {
